@@ -24,7 +24,8 @@ CapQ(q, p) == IF Len(q) > p THEN SubSeq(q, 1, p) ELSE q
 ValidConfig(c) == /\ c.M >= 3 /\ c.P >= 1 /\ c.RL >= 1 /\ c.WL >= 1 /\ c.C >= 1
                   /\ c.L <= c.M /\ c.L + c.D <= c.M
 
-NewState(c) == [M |-> c.M, P |-> c.P, C |-> c.C, RL |-> c.RL, WL |-> c.WL,
+\* a read or write limit of the core size or more is no limit (repair of D31: such limits were folded with unsigned wrap-around)
+NewState(c) == [M |-> c.M, P |-> c.P, C |-> c.C, RL |-> IF c.RL > c.M THEN c.M ELSE c.RL, WL |-> IF c.WL > c.M THEN c.M ELSE c.WL,
                 core |-> [a \in 0..c.M-1 |-> Blank],
                 wd |-> << >>, ws |-> << >>, wq |-> << >>, cycle |-> 0, living |-> 0]
 
